@@ -284,7 +284,9 @@ pub fn check_big_molecule(seed: u64, n1: usize, n2: usize, st: &mut Stats) {
                 mag += v.abs();
             }
         }
-        if !((e - sum).abs() <= 1e-11 * mag + 1e-300) {
+        // (the order of a sum of n terms may change it by about n ulps of its magnitude)
+        let npairs = (x.items.len() * y.items.len()) as f64;
+        if !((e - sum).abs() <= 1e-11 * mag * (1. + npairs / 1000.) + 1e-300) {
             st.violation(Violation {
                 kind: "c13.bigmol".into(),
                 signature: "LJShape2::energy:not-sum-over-particle-pairs".into(),
@@ -378,9 +380,15 @@ pub fn gen_mol<R: Rng>(rng: &mut R) -> MolCase {
 }
 
 pub fn run(ctx: &Ctx) {
-    ctx.set_rule("particle pairs: sigma 0.1-5 (and 1, 2, and all length scales 1e-9..1e3), epsilon 0.1-5, cutoff None/3.5/1.5-6, like and unlike pairs, r log-uniform 0.5-10 sigma and at the cutoff +-3 ulps / +-1e-6, random directions and origins, optional common rigid motion or reflection; checked: 12-6 law (1e-12 of the term scale) for like pairs, symmetry, exact zero at/after the cutoff, continuity just inside it, invariance under the motion; uncut minimum located by golden-section search on library values; molecule energy = sum of its particle-pair energies for circles and trimers over the CLI's ranges and for arbitrary molecules of 1..129 particles (both orders, inside the thread pool); non-trivial = separation inside the cutoff; distinct by quantised (r, sigma, epsilon, cutoff)");
+    ctx.set_rule("particle pairs: sigma 0.1-5 (and 1, 2, and all length scales 1e-9..1e3), epsilon 0.1-5, cutoff None/3.5/1.5-6, like and unlike pairs, r log-uniform 0.5-10 sigma and at the cutoff +-3 ulps / +-1e-6, random directions and origins, optional common rigid motion or reflection; checked: 12-6 law (1e-12 of the term scale) for like pairs, symmetry, exact zero at/after the cutoff, continuity just inside it, invariance under the motion; uncut minimum located by golden-section search on library values; molecule energy = sum of its particle-pair energies for circles and trimers over the CLI's ranges and for arbitrary molecules of 1..129 particles and of 257..131,073 all-different particles (both orders, inside the thread pool); non-trivial = separation inside the cutoff; distinct by quantised (r, sigma, epsilon, cutoff)");
     let n = ctx.tier.pick(30_000u64, 3_000_000u64);
-    par_shards(ctx, 13, 64, |_, rng, st| {
+    par_shards(ctx, 13, 64, |i, rng, st| {
+        // molecules larger than any 8- or 16-bit index: tens of thousands of particles, all
+        // different, against a probe of one or a few (a polydisperse cluster and a test particle)
+        if i < 6 {
+            let (n1, n2) = [(65_537usize, 1usize), (1, 70_000), (131_073, 2), (300, 300), (257, 256), (3, 66_000)][i as usize];
+            check_big_molecule(rng.gen::<u64>(), n1, n2, st);
+        }
         for _ in 0..n {
             let c = gen_pair(rng);
             check_pair(&c, st);
